@@ -207,6 +207,9 @@ def _expr_simp(e):
         if op in ['+', '-', '|', "^", "<<", ">>", "<<<", ">>>"] and len(args) > 1:
             if isinstance(args[-1], ExprInt) and args[-1].arg == 0:
                 args.pop()
+                if op == '-' and len(args) == 1:
+                    # A - 0 => A (and not the unary -A)
+                    return args[0]
 
         # op A => A
         if op in op_assoc + ['>>', '<<', '<<<', '>>>'] and len(args) == 1 :
